@@ -144,6 +144,15 @@ def branch_of_beta(beta, eps=EPS):
     return 'zero' if beta < eps else ('pi' if beta > (np.pi - eps) else 'generic')
 
 
+def wrap_flip(al, ga, ma, mg):
+    """parity of the number of 2pi wraps by which the implementation's extracted (alpha, gamma) differ from the model's: each wrap
+    flips the sign of angle_to_su2; non-finite or non-multiple differences give no flip (the so3ang tie reports those)"""
+    try:
+        return (round((al - ma) / (2 * PI)) + round((ga - mg) / (2 * PI))) % 2 == 1
+    except (ValueError, OverflowError):
+        return False
+
+
 def in_threshold(R, eps=EPS):
     b = math.acos(min(1.0, max(-1.0, R[2, 2])))
     return (0 < b < eps) or (PI - eps < b < PI)
@@ -295,11 +304,12 @@ def correspondence(ctx):
         ctx.count('branch-' + mb[0]); ctx.count('in-' + tag)
         U = guarded(lambda: G.so3_to_su2(R))
         m = parse_cx(model[nI + i]).reshape(2, 2)
-        # so3_to_su2 = angle_to_su2(so3_to_angle(R)) fixes the sign of U; model and implementation may only differ in sign when an
-        # extracted angle sits on the 2pi wrap of `% (2*pi)` (fmod vs floor), which flips e^{i(alpha+-gamma)/2} by pi
-        wrap = any(min(x % (2 * PI), 2 * PI - x % (2 * PI)) < 1e-9 for x in (al, ga))
-        ok = (not isinstance(U, str)) and (np.abs(U - m).max() <= 1e-9 or (wrap and np.abs(U + m).max() <= 1e-9))
-        cmp(ctx, ops[nI + i], ok, model[nI + i], U); ctx.count('so3su2-sign-exact' if not wrap else 'so3su2-wrap')
+        # so3_to_su2 = angle_to_su2(so3_to_angle(R)) fixes the sign of U.  Model and implementation may differ in sign only when one of
+        # their extracted angles really landed on the other side of the 2pi wrap of `% (2*pi)` (fmod vs floor); each such wrap flips
+        # e^{i(alpha+-gamma)/2} by pi, so the sign demanded is (-1)^(number of wraps) — decided on the two sides' actual angles
+        flip = wrap_flip(al, ga, ma, mg)
+        ok = (not isinstance(U, str)) and np.abs(U - (-m if flip else m)).max() <= 1e-9
+        cmp(ctx, ops[nI + i], ok, model[nI + i], U); ctx.count('so3su2-sign-exact' if not flip else 'so3su2-wrap-flip')
     ctx.sample({'op': ops[0][:120] + '…', 'out': model[0]})
 
     ops, aux = [], []
@@ -347,8 +357,8 @@ def correspondence(ctx):
             cmp(ctx, ops_e[i], ok, mo[i], (al, be, ga), key='zero_eps-so3ang')
             U = guarded(lambda: G.so3_to_su2(R, zero_eps=eps))
             m_ = parse_cx(mo[nR + i]).reshape(2, 2)
-            wrap = any(min(x % (2 * PI), 2 * PI - x % (2 * PI)) < 1e-9 for x in (al, ga))
-            cmp(ctx, ops_e[nR + i], (not isinstance(U, str)) and (np.abs(U - m_).max() <= 1e-9 or (wrap and np.abs(U + m_).max() <= 1e-9)), mo[nR + i], U, key='zero_eps-so3su2')
+            flip = wrap_flip(al, ga, ma, mg)
+            cmp(ctx, ops_e[nR + i], (not isinstance(U, str)) and np.abs(U - (-m_ if flip else m_)).max() <= 1e-9, mo[nR + i], U, key='zero_eps-so3su2')
         for j, U in enumerate(Us):
             op = ops_e[2 * nR + j]; line = mo[2 * nR + j]
             r = guarded(lambda: G.su2_to_angle(U, zero_eps=eps))
@@ -413,11 +423,12 @@ def correspondence(ctx):
         ops_c = [mat_ops('so3su2', R) for R in Rin.reshape(-1, 3, 3)] + [mat_ops('so3ang', R) for R in Rin.reshape(-1, 3, 3)]
         mc_ = common.run_model(ops_c)
         Vb = guarded(lambda: np.asarray(G.so3_to_su2(Rin)))
+        angR = guarded(lambda: [np.asarray(x, dtype=np.float64) for x in G.so3_to_angle(Rin)])     # the implementation's own batched angles
         for j in range(n_):
             m_ = parse_cx(mc_[j]).reshape(2, 2)
             ma, _, mg = parse_f(mc_[n_ + j].split(' ')[1])
-            wrap = any(min(x % (2 * PI), 2 * PI - x % (2 * PI)) < 1e-9 for x in (ma, mg))
-            okV = (not isinstance(Vb, str)) and Vb.shape == shape + (2, 2) and (np.abs(Vb.reshape(-1, 2, 2)[j] - m_).max() <= 1e-9 or (wrap and np.abs(Vb.reshape(-1, 2, 2)[j] + m_).max() <= 1e-9))
+            flip = (not isinstance(angR, str)) and angR[0].shape == shape and wrap_flip(float(angR[0].reshape(-1)[j]), float(angR[2].reshape(-1)[j]), ma, mg)
+            okV = (not isinstance(Vb, str)) and Vb.shape == shape + (2, 2) and np.abs(Vb.reshape(-1, 2, 2)[j] - (-m_ if flip else m_)).max() <= 1e-9
             cmp(ctx, ops_c[j], okV, mc_[j], Vb if isinstance(Vb, str) else 'batch element', key='batched-so3su2')
         # get_su2_irrep: matrix batch, angle batch, return_matd, j2 = 0 included; the model op takes the angles the implementation extracts
         for j2 in ([0, 1, 4] if ctx.quick() else [0, 1, 2, 3, 4, 7, 10]):
@@ -1055,6 +1066,69 @@ def probe(ctx):
         else:
             ctx.probe_ok(('rot2', m, n))
 
+    # P14: batches on the SU(2) side: one call on a batch == per-item calls; homomorphism on whole batches
+    probe_su2_batches(ctx)
+
+
+def probe_su2_batches(ctx, wide=False):
+    """implementation-side oracle for batches on the SU(2) side (no model involved): one call on a batch == the per-item calls, for
+    su2_to_so3, su2_to_angle, so3_to_su2, get_su2_irrep, and the two-to-one homomorphism su2_to_so3(U V) = su2_to_so3(U) su2_to_so3(V)
+    evaluated on whole batches.  Shapes with distinct axis lengths, so that a permutation of the batch axes shows."""
+    import numqi
+    G = numqi.group
+    nprng = np.random.default_rng(ctx.np_seed + 23 + (1000 if wide else 0))
+    grid = angle_grid(ctx)
+    Y = np.array([[0, -1], [1, 0]], dtype=np.complex128)
+    pool = [ref_su2(a, b, g) if tag != 'betapi' else ref_su2(a, 0, 0) @ Y @ ref_su2(0, 0, g) for a, b, g, tag in grid
+            if not (tag in ('near0', 'nearpi') and min(b, PI - b) < 1e-6)]
+    shapes = [(5,), (2, 3), (2, 1, 3), (1,)] + ([(3, 1, 1, 2), (17,), (4, 2, 3), (2, 3, 4, 1)] if (wide or not ctx.quick()) else [])
+    cx = lambda A: [[float(x.real), float(x.imag)] for x in np.asarray(A).reshape(-1)]
+    for shape in shapes:
+        for rep in range(2 if not wide else 4):
+            n = int(np.prod(shape))
+            Ub = np.stack([pool[i] for i in nprng.integers(0, len(pool), size=n)]).reshape(shape + (2, 2))
+            Vb = np.stack([pool[i] for i in nprng.integers(0, len(pool), size=n)]).reshape(shape + (2, 2))
+            items = list(np.ndindex(*shape))
+
+            def per_item(f, X, tail):
+                return np.stack([np.asarray(f(X[ix])) for ix in items]).reshape(shape + tail)
+
+            def f_so3():
+                Rb = np.asarray(G.su2_to_so3(Ub))
+                assert Rb.shape == shape + (3, 3), f'shape {Rb.shape}'
+                return amax(Rb - per_item(G.su2_to_so3, Ub, (3, 3)))
+
+            def f_ang():
+                ab = [np.asarray(x, dtype=np.float64) for x in G.su2_to_angle(Ub)]
+                assert all(x.shape == shape for x in ab), f'shapes {[x.shape for x in ab]}'
+                one = [np.array([float(G.su2_to_angle(Ub[ix])[k]) for ix in items]).reshape(shape) for k in range(3)]
+                return max(amax(x - y) for x, y in zip(ab, one))
+
+            def f_lift():
+                Rb = np.asarray(G.su2_to_so3(Ub))
+                Wb = np.asarray(G.so3_to_su2(Rb))
+                assert Wb.shape == shape + (2, 2), f'shape {Wb.shape}'
+                return amax(Wb - per_item(G.so3_to_su2, Rb, (2, 2)))     # (that Wb is a pre-image of Rb is P1 / the corpus, with the pole tolerances)
+
+            def f_hom():
+                return amax(np.asarray(G.su2_to_so3(Ub @ Vb)) - np.asarray(G.su2_to_so3(Ub)) @ np.asarray(G.su2_to_so3(Vb)))
+
+            checks = [('su2_to_so3', f_so3, 1e-13), ('su2_to_angle', f_ang, 1e-12), ('so3_to_su2', f_lift, 1e-12), ('su2_to_so3 homomorphism', f_hom, 1e-12)]
+            for j2 in ((1, 4) if ctx.quick() and not wide else (1, 2, 5, 8)):
+                def f_irrep(j2=j2):
+                    Db = np.asarray(G.get_su2_irrep(j2, Ub))
+                    assert Db.shape == shape + (j2 + 1, j2 + 1), f'shape {Db.shape}'
+                    return amax(Db - per_item(lambda U: G.get_su2_irrep(j2, U), Ub, (j2 + 1, j2 + 1)))
+                checks.append((f'get_su2_irrep(j2={j2})', f_irrep, 1e-12))
+            for name, f, tol in checks:
+                r = guarded(f)
+                if isinstance(r, str) or not (r <= tol):
+                    ctx.fail('su2-batch-elementwise', f'{name} on a batch of shape {shape} differs from the per-item calls'
+                             + (' (or the batch images do not multiply)' if 'hom' in name else '') + ': ' + (r if isinstance(r, str) else f'max difference {r:.3g}'),
+                             dict(op='su2-batch-elementwise', function=name, shape=list(shape), U=cx(Ub), V=cx(Vb)))
+                else:
+                    ctx.probe_ok(('su2-batch', name, shape, rep))
+
 
 def search(ctx, hints):
     # the probe evaluates the property statement directly on the same grids as the correspondence;
@@ -1095,3 +1169,6 @@ def search(ctx, hints):
             U = guarded(lambda: G.angle_to_su2(a, b, g))
             if isinstance(U, str) or amax(U - ref_su2(a, b, g)) > 1e-12:
                 ctx.fail('angle-to-su2', f'angle_to_su2{(a, b, g)} != exp(-i a sz/2) exp(-i b sy/2) exp(-i g sz/2)', dict(op='a2su2', angles=[a, b, g]))
+    if not ctx.failures:
+        # disagreeing batched-* ops (and anything else left unexplained): the implementation-side batch oracle on more shapes
+        probe_su2_batches(ctx, wide=True)
